@@ -16,7 +16,13 @@ import (
 
 type vRand struct{ s uint64 }
 
-func newVRand(seed uint64) *vRand { return &vRand{s: seed*0x9E3779B97F4A7C15 + 0x1234567} }
+// newVRand mixes the seed first so that neighbouring seeds give unrelated streams.
+func newVRand(seed uint64) *vRand {
+	z := seed + 0x9E3779B97F4A7C15
+	z = (z ^ (z >> 30)) * 0xBF58476D1CE4E5B9
+	z = (z ^ (z >> 27)) * 0x94D049BB133111EB
+	return &vRand{s: z ^ (z >> 31)}
+}
 
 func (r *vRand) u64() uint64 {
 	r.s += 0x9E3779B97F4A7C15
